@@ -733,6 +733,38 @@ def eval_tree(rep, case, tier, only=None):
                 continue
             check_whole_key(rep, g, rows, rp)
             check_selectors(rep, rep, g, rows, pattern, rp, tier, containers=True, stride=1 if tier != 'quick' else (2 if mine else 17), offset=vi + salt)
+    eval_invalid_appends(rep, rows, pattern, base_rp, only)
+
+
+def eval_invalid_appends(rep, rows, pattern, base_rp, only):
+    """an append that cannot extend the tuple sequence (label under a parent that is not the last one; a held label):
+    either it raises and the index still describes `rows`, or it returns and the index describes rows + [label]"""
+    import static_frame as sf
+    if eq(rows[0][:-1], rows[-1][:-1]):
+        return
+    depth = len(rows[0])
+    bads = (('append-under-non-last-parent', rows[0][:-1] + (ABSENT[pattern[-1]],)), ('append-held-label-of-non-last-parent', rows[0]))
+    for name, bad in bads:
+        for read in READS:
+            if only is not None and (only.get('go') != name or only.get('read') != read):
+                continue
+            rp = dict(base_rp, go=name, read=read)
+            rep.count(distinct_key=('go', repr(sorted(rp.items(), key=str))), sample=dict(rp, rows=len(rows)))
+            g = build_go(rows, pattern, ('full', rows, []), 'warm' if read != 'cold' else 'cold', rep, rp)
+            if g is None:
+                continue
+            o = obs(lambda: g.append(bad))
+            if read == 'between':
+                obs(lambda: g.values)
+            s = Sink()
+            if o[0] == 'exc':
+                views(s, g, rows, rp, 'go-views-after-rejected-append')
+                s.flush(rep)
+            else:
+                ok = views(s, g, rows + [bad], rp, 'go-views') and not s.failures
+                shown = obs(lambda: list(g))
+                rep.check(ok, f'{PID}:go:append-under-non-last-parent-misfiled',
+                          f'append({bad!r}) on rows {rows!r} returned normally; the index now lists {shown[1]!r} ({s.failures[0][1][:160] if s.failures else ""})', rp)
 
 
 class Rep(Report):
